@@ -23,6 +23,8 @@ pub fn boundary(rng: &mut Rng, w: usize) -> u64 {
         3 => max - 1,
         4 => (max >> 1) + 1,
         5 => max >> 1,
+        // small values: enumerations (lock types, whence, type codes) live here
+        6 => 2 + rng.below(7),
         _ => rng.next() & max,
     }
 }
@@ -1052,7 +1054,19 @@ fn run_random(args: &[String]) {
     let mut ops = abi.op_names();
     ops.sort();
     for i in 0..n {
-        let (mut bytes, script, opname): (Vec<u8>, Ret, String) = if i % 2 == 0 {
+        // one transaction in sixteen: the file system refuses to translate the caller's ids (id_remap_with_nodeid fails
+        // before anything else is looked at); the request itself is well-formed, half of them FORGET / BATCH_FORGET
+        let refuse = i % 16 == 5;
+        fs.remap_refuse.store(refuse, std::sync::atomic::Ordering::SeqCst);
+        let (mut bytes, script, opname): (Vec<u8>, Ret, String) = if refuse {
+            let opname = if i % 32 == 5 { (if i % 64 == 5 { "FORGET" } else { "BATCH_FORGET" }).to_string() } else { rng.pick(&ops).clone() };
+            let b = build(&abi, &mut rng, &opname, &[], false);
+            let mut bytes = b.bytes.clone();
+            if bytes.len() > 70_000 && opname != "BATCH_FORGET" {
+                bytes.truncate(70_000);
+            }
+            (bytes, b.script, opname)
+        } else if i % 2 == 0 {
             // mutate a well-formed request: flip bits, truncate, extend, lie in the length field
             let opname = rng.pick(&ops).clone();
             let we = rng.chance(1, 4);
@@ -1122,7 +1136,7 @@ fn run_random(args: &[String]) {
             .unwrap_or_else(|| if code == abi.konst("FUSE_INIT") { "INIT".to_string() } else { "HOLE".to_string() });
         let unique = if bytes.len() >= 16 { u64le(&bytes, 8) } else { 0 };
         let b = Built { bytes: bytes.clone(), req: hdr_json(&bytes, unique), script, cap_hint: 0 };
-        emit_tx(&mut tr, &abi, &fs, trn, &seen, "random", &b, &o, json!({"cap": cap, "from": opname, "hooks": {"collect": hk.0, "release": hk.1, "init_params": hk.2}, "hex": if bytes.len() <= 256 { bytes.iter().map(|x| format!("{x:02x}")).collect::<String>() } else { String::new() }}));
+        emit_tx(&mut tr, &abi, &fs, trn, &seen, "random", &b, &o, json!({"cap": cap, "from": opname, "remap_refused": refuse, "hooks": {"collect": hk.0, "release": hk.1, "init_params": hk.2}, "hex": if bytes.len() <= 256 { bytes.iter().map(|x| format!("{x:02x}")).collect::<String>() } else { String::new() }}));
     }
     tr.emit(&json!({"e": "End", "n": tr.n}));
     tr.flush();
